@@ -147,14 +147,18 @@ def s1(ctx, rep):
     P = ctx.P
     f = P.func("syne_tune.optimizer.schedulers.multiobjective.non_dominated_priority.pareto_efficient")
     dom = None
-    for st in walk_shallow(f.node):
-        if isinstance(st, ast.Assign) and isinstance(st.value, ast.BinOp) and isinstance(st.value.op, (ast.Mult, ast.BitAnd)):
-            l, r = st.value.left, st.value.right
+    from ..engine import deref
+    for bo in walk_shallow(f.node):
+        if isinstance(bo, ast.BinOp) and isinstance(bo.op, (ast.Mult, ast.BitAnd)):
+            l, r = bo.left, bo.right
             if isinstance(l, ast.Call) and isinstance(r, ast.Call) and {fn_name(l), fn_name(r)} == {"all", "any"}:
-                dom = (st, l if fn_name(l) == "all" else r, r if fn_name(r) == "any" else l)
+                st = bo
+                while not isinstance(st, ast.stmt):
+                    st = st._parent
+                dom = (st, l if fn_name(l) == "all" else r, r if fn_name(r) == "any" else l, bo)
     if dom is None:
         raise AnchorError("pareto_efficient: `dominated = all(a <= X) * any(a < X)` not recognised")
-    st, al, an = dom
+    st, al, an, bo = dom
     ca, cn = al.args[0], an.args[0]
     ok = isinstance(ca, ast.Compare) and isinstance(cn, ast.Compare) and len(ca.ops) == 1 and len(cn.ops) == 1
 
@@ -172,12 +176,11 @@ def s1(ctx, rep):
         ax = [U(kwarg(c, "axis", 1)) if kwarg(c, "axis", 1) is not None else None for c in (al, an)]
         ok = ok and ax[0] == ax[1] and ax[0] in ("1", "-1")
     rep.put(ok, "S1", "agreement", "pareto_efficient: dominated = ALL(a <= rows) and ANY(a < rows) on the same operands", f, st,
-            U(st.value)[:100], f"`{U(st.value)[:120]}` is not weak-all-and-strict-any dominance between the same operands: points are "
+            U(bo)[:100], f"`{U(bo)[:120]}` is not weak-all-and-strict-any dominance between the same operands: points are "
             "marked (un)dominated wrongly")
     # only currently undominated rows are tested and updated
-    tgt = U(st.targets[0])
     upd = [s for s in walk_shallow(f.node) if isinstance(s, ast.Assign) and isinstance(s.targets[0], ast.Subscript)
-           and isinstance(s.value, ast.UnaryOp) and isinstance(s.value.op, ast.Invert) and U(s.value.operand) == tgt]
+           and isinstance(s.value, ast.UnaryOp) and isinstance(s.value.op, ast.Invert) and deref(f, s.value.operand) is bo]
     ok = len(upd) == 1 and U(upd[0].targets[0].value) == U(upd[0].targets[0].slice)
     mask = U(upd[0].targets[0].value) if upd else "?"
     ok = ok and f"[{mask}]" in U(ca.comparators[0]) + U(ca.left)
@@ -227,8 +230,8 @@ def s2(ctx, rep):
         idx = app[0].args[0]
         while isinstance(idx, ast.Call):
             idx = idx.func.value
-        if isinstance(idx, ast.Subscript) and isinstance(idx.slice, ast.Name):
-            src = d.get(idx.slice.id)
+        if isinstance(idx, ast.Subscript):
+            src = d.get(idx.slice.id) if isinstance(idx.slice, ast.Name) else idx.slice
             ok = isinstance(src, ast.Call) and fn_name(src) == "compute_epsilon_net" and f"[{front[0]}]" in U(src.args[0])
     rep.put(ok, "S2", "agreement", "nondominated_sort: within-layer order is a permutation computed on that layer", f, None, "")
     # the loop runs while rows remain
@@ -291,9 +294,12 @@ def s4(ctx, rep):
     if len(lp) != 1:
         raise AnchorError("_Bracket.on_result: loop over (milestone, recorded) in self._rungs not found")
     recv = U(lp[0].target.elts[1])
-    rkv = vars_assigned_from(b, lambda v: isinstance(v, ast.BinOp) and isinstance(v.op, ast.Div) and isinstance(v.left, ast.Call)
-                             and fn_name(v.left) == "searchsorted")
-    lastv = vars_assigned_from(b, lambda v: isinstance(v, ast.Subscript) and U(v.slice) == "-1" and U(v.value) in rkv)
+    def is_rank_vec(v):
+        v = deref(b, v)
+        return isinstance(v, ast.BinOp) and isinstance(v.op, ast.Div) and isinstance(v.left, ast.Call) and fn_name(v.left) == "searchsorted"
+    from ..engine import deref
+    rkv = vars_assigned_from(b, is_rank_vec)
+    lastv = vars_assigned_from(b, lambda v: isinstance(v, ast.Subscript) and U(v.slice) == "-1" and is_rank_vec(v.value))
     mv = call[0].args[0]
     src = [d for d in local_defs(b, mv.id) if not isinstance(d, tuple)][0] if isinstance(mv, ast.Name) else mv
     ok = False
@@ -304,7 +310,7 @@ def s4(ctx, rep):
     rep.put(ok, "S4", "must_precede", "_Bracket.on_result: new metrics appended last before the priority is computed", b, src,
             "recorded rows + [new row]", "the priority is computed without the new trial's own metrics as the last row")
     # rank of the new trial is read at position -1
-    rk = [x for x in walk_shallow(b.node) if isinstance(x, ast.Subscript) and U(x.slice) == "-1" and U(x.value) in rkv]
+    rk = [x for x in walk_shallow(b.node) if isinstance(x, ast.Subscript) and U(x.slice) == "-1" and is_rank_vec(x.value)]
     rep.put(len(rk) == 1, "S4", "agreement", "_Bracket.on_result: the new trial's rank is the last entry", b, rk[0] if rk else None, "")
     # STOP iff rank > 1/rf
     stops = [n for n in cfg.nodes if n.kind == "stmt" and isinstance(n.ast, ast.Assign) and U(n.ast.value).endswith("SchedulerDecision.STOP")]
